@@ -55,4 +55,10 @@ def run(ctx):
                 "published, an empty list is not, the node-count delta is moved out, the allocation mark is untouched.")
     nl = efreelist.check_return_links(ctx, F)
     ctx.floor("E-FREELIST.link", "interpreted hand-back situations", nl, 5)
+    ctx.explain("E-FREELIST.sentinel: every constant that meets a free-list head (Cell::set / replace, pop().unwrap_or, comparisons) is "
+                "the end-of-list marker 0. E-FREELIST.countsign: the shared node count receives deltas by addition; subtractions are "
+                "`-= 1` only.")
+    nse = efreelist.check_sentinel(ctx, F)
+    ctx.floor("E-FREELIST.sentinel", "sentinel constants", nse, 7)
+    efreelist.check_count_signs(ctx, F)
     ctx.not_decided = "validity of handles after failure, success on retry, panics other than AllocResult unwraps"
